@@ -18,7 +18,7 @@ import (
 )
 
 var multiSlash = regexp.MustCompile(`/+`)
-var paramRe = regexp.MustCompile(`\{([A-Za-z0-9_]+)\}`)
+var paramRe = regexp.MustCompile(`\{([A-Za-z0-9_-]+)\}`)
 
 func collapse(p string) string { return multiSlash.ReplaceAllString(p, "/") }
 
@@ -62,7 +62,11 @@ func pathParams(tmpl string) []scen.Param {
 	for _, m := range paramRe.FindAllStringSubmatch(tmpl, -1) {
 		if !seen[m[1]] {
 			seen[m[1]] = true
-			ps = append(ps, scen.Param{Name: m[1], Type: "string", In: "Path"})
+			if goName := strings.ReplaceAll(m[1], "-", ""); goName != m[1] {
+				ps = append(ps, scen.Param{Name: goName, Type: "string", In: "Path", Alias: m[1]})
+			} else {
+				ps = append(ps, scen.Param{Name: m[1], Type: "string", In: "Path"})
+			}
 		}
 	}
 	return ps
@@ -86,7 +90,7 @@ func AllCases(tier string) []scen.Case {
 func productCases(tier string) []scen.Case {
 	verbs := []string{"GET", "POST", "PUT", "DELETE", "PATCH"}
 	prefixesA := []string{"/§", "§", "/§/", "//§", "/§/a", "/§//a", "/§/{t}"}
-	routesA := []string{"/", "/x", "x", "/x/", "//x", "/x//y", "/{id}", "/x/{id}", "/{id}/y"}
+	routesA := []string{"/", "/x", "x", "/x/", "//x", "/x//y", "/{id}", "/x/{id}", "/{id}/y", "/x/{my-id}"}
 	prefixesB := []string{"<none>", "/", ""}
 	routesB := []string{"/§", "§", "/§/", "//§", "/§/x", "/§//x", "/§/{id}", "/{id}/§"}
 	tags := []string{"T§", "T § with space"}
@@ -112,7 +116,10 @@ func productCases(tier string) []scen.Case {
 			sibRoute = "/" + id + "/sib"
 		}
 		sib := method("Sib"+id, "GET", sibRoute, pfx)
-		c.Methods = []scen.Method{m, sib}
+		// a second verb on exactly the same (raw) route: two operations must share one path item
+		otherVerb := map[string]string{"GET": "PUT", "POST": "DELETE", "PUT": "PATCH", "DELETE": "GET", "PATCH": "POST"}[verb]
+		twin := method("Twin"+id, otherVerb, sub(route), pfx)
+		c.Methods = []scen.Method{m, sib, twin}
 		cases = append(cases, scen.Case{ID: id, Unit: scen.Unit{Controllers: []scen.Controller{c}},
 			Features: map[string]string{"family": family, "prefix": prefix, "route": route, "verb": verb, "hidden": fmt.Sprint(hidden), "deprecated": fmt.Sprint(deprecated), "tag": tag},
 			Desc:     []scen.Controller{c}})
@@ -507,7 +514,7 @@ func Main(tier, replay string) {
 	run.Set("pack_bisections", rn.Bisects.Load())
 	run.Sample(cases[0])
 	run.Sample(cases[len(cases)-1])
-	run.Bound = fmt.Sprintf("full product of 1-controller scenarios (7 namespaced prefixes x 9 routes, 3 prefix-less x 8 routes, 5 verbs, hidden/deprecated, 2 tags: %d) + every subset of <= %d of %d layout deviations on a 3-controller/2-package base; both OpenAPI versions; each scenario packed and alone", len(productCases(tier)), map[string]int{"quick": 2, "thorough": 3}[tier], len(mutators()))
+	run.Bound = fmt.Sprintf("full product of 1-controller scenarios (7 namespaced prefixes x 10 routes, 3 prefix-less x 8 routes, 5 verbs, hidden/deprecated, 2 tags: %d) + every subset of <= %d of %d layout deviations on a 3-controller/2-package base; both OpenAPI versions; each scenario packed and alone", len(productCases(tier)), map[string]int{"quick": 2, "thorough": 3}[tier], len(mutators()))
 	run.Rule = "state = one scenario (controllers, files, packages, routes, verbs, flags); transition = one run of the real pipeline + both spec generators over a generated project; validated = per-scenario, per-version comparisons of documented operations with the reference route model, plus packed-vs-alone projections"
 	run.Assumptions = []string{"path normalisation = collapsing runs of '/'", "when two methods map to one verb/path only membership of (operationId, tag, deprecated) is demanded"}
 	cleanupAndFinish(run, scratch)
